@@ -71,22 +71,14 @@ def jobs(tier):
                     for sc in ([h, []], [[], h]):
                         out.append({"prop": PROP, "cfg": cfg, "order": order, "base": base, "scripts": A.stamp(sc),
                                     "mode": {"k": k, "cap": 2000, "depth": 60, "audit": 64 if tier == "quick" else 8}})
-    # 3-operation chains on one object family, deviation-bounded around several default schedules (a slow poller on
-    # either side, users ahead of the engine): fixed list = every STRIDE-th related chain
+    # 3-operation chains on one object family
     chains = [h for h in A.valid_histories(BASES["B1"], A.UEXT, 3) if len(h) == 3 and A.related_chain(h)]
-    stride = 2 if tier == "quick" else 1
-    for cfg in (["oo", "po"] if tier == "quick" else ["oo", "po", "pp", "op"]):
-        for i, h in enumerate(chains):
-            if i % stride:
-                continue
-            for oname in (("lazy-remote-intake", "lazy-local-intake", "users-first") if tier == "quick" else list(A.ORDERS)):
-                order = A.ORDERS[oname]
-                for sc, od in (([h, []], order), ([[], h], A.mirror_order(order))):
-                    mode = {"k": 1 if tier == "quick" else 2, "cap": 1200, "depth": 90, "audit": 0}
-                    if od:
-                        mode["order"] = od
-                    out.append({"prop": PROP, "cfg": cfg, "order": "asc", "base": "B1", "scripts": A.stamp(sc), "mode": mode,
-                                "schedule": oname})
+    # the same chains (all of them) in EVERY interleaving: a one-sided 3-op history has a small state graph (~200 states)
+    for cfg in (["oo", "po"] if tier == "quick" else ["oo", "po", "pp", "op", "ci"]):
+        for h in chains:
+            for sc in ([h, []], [[], h]):
+                out.append({"prop": PROP, "cfg": cfg, "order": "asc", "base": "B1", "scripts": A.stamp(sc), "schedule": "full",
+                            "mode": {"k": None, "cap": 3000, "depth": 90, "audit": 0}})
     # accounts that report folder deletions without an object id (the event manager matches them by path): folder
     # histories incl. re-use of a deleted folder's name
     hs = [h for h in A.valid_histories(BASES["B4"], OT_ALPHA, 3) if any(op[0] == "delete" for op in h)]
